@@ -49,8 +49,17 @@ def rule_window(report, prog):
     create = one(stmt_nodes(cfg, 'pdu.Information('), 'send(): I PDU creation')
     inc = one(stmt_nodes(cfg, pred=lambda a: isinstance(a, ast.Assign) and is_self_attr(a.targets[0], ('send_cnt',))),
               'send(): V(S) increment')
-    ns = one(stmt_nodes(cfg, pred=lambda a: isinstance(a, ast.Assign) and norm(a.targets[0]).endswith('.ns')),
-             'send(): N(S) assignment')
+    # N(S) is given to the PDU by attribute assignment or as the constructor's `ns` argument (third positional)
+    def _ns_value(a):
+        if isinstance(a, ast.Assign) and norm(a.targets[0]).endswith('.ns'):
+            return a.value
+        for c in ast.walk(a):
+            if isinstance(c, ast.Call) and norm(c.func) == 'pdu.Information':
+                kw = [k.value for k in c.keywords if k.arg == 'ns']
+                if kw or len(c.args) > 2:
+                    return kw[0] if kw else c.args[2]
+        return None
+    ns = one(stmt_nodes(cfg, pred=lambda a: isinstance(a, (ast.Assign, ast.Expr)) and _ns_value(a) is not None), 'send(): N(S) assignment')
     snd = one(stmt_nodes(cfg, 'super(DataLinkConnection, self).send('), 'send(): queueing')
     in_loop = set(id(x) for x in ast.walk(loop))
     for n, what in ((create, 'I PDU creation'), (ns, 'N(S) assignment'), (inc, 'V(S) increment'), (snd, 'queueing')):
@@ -63,9 +72,19 @@ def rule_window(report, prog):
         report.check(okk, 'C05-R1', key(f.qname, what, 'only in state ESTABLISHED'), f.loc(n.ast),
                      '%s can happen when the connection is no longer established' % what, fmt(cfg, p))
     # N(S) is taken before the increment, from the counter itself
-    report.check(norm(ns.ast.value) == 'self.send_cnt' and cfg.dominates(ns, inc), 'C05-R1',
+    report.check(norm(_ns_value(ns.ast)) == 'self.send_cnt' and (cfg.dominates(ns, inc) or ns is inc), 'C05-R1',
                  key(f.qname, 'N(S) := V(S) before V(S) is incremented'), f.loc(ns.ast),
                  'N(S) is not the pre-increment value of V(S)')
+    # taking N(S) and advancing V(S) is one step: nothing that can release the socket lock (the queueing may wait for the PDU
+    # to be sent, a condition wait) lies between them, and no path skips the increment once N(S) was taken
+    blocking = [n for n in cfg.nodes if n is not ns and n is not inc and
+                isinstance(n.ast, (ast.Expr, ast.Assign, ast.AugAssign, ast.Return, ast.expr)) and any(
+                    isinstance(c, ast.Call) and (norm(c.func).endswith('.wait') or norm(c.func).startswith('super(')) for c in ast.walk(n.ast))]
+    between = [b for b in blocking if b in cfg.reachable(ns, avoid_nodes=[inc]) and inc in cfg.reachable(b)]
+    skipped = cfg.exit in cfg.reachable(ns, avoid_nodes=[inc], labels_excluded=('exc',))
+    report.check(not between and not skipped, 'C05-R1', key(f.qname, 'N(S) assignment and V(S) increment are one atomic step'), f.loc(inc.ast),
+                 'between taking N(S) and incrementing V(S) %s: a second sender can be given the same N(S)'
+                 % ('the lock can be released at `%s`' % between[0].text()[:60] if between else 'a path leaves send() without the increment'))
     # the loop condition blocks exactly when no slot is free
     report.check(norm(loop.test) == 'self.send_window_slots == 0 and self.state.ESTABLISHED', 'C05-R1',
                  key(f.qname, 'loop condition', loop.test), f.loc(loop),
@@ -319,6 +338,41 @@ def rule_fifo(report, prog):
     report.floor('C05-R7', n, 20)
 
 
+def rule_piggyback(report, prog):
+    """R4 (acknowledgements): every I PDU that dequeue() hands to the link carries the current V(RA): on each path from the true
+    edge of `send_pdu.name == "I"` to the return, N(R) := V(RA) is executed, and V(RA) is not advanced after it.  An I PDU with a
+    stale N(R) moves the peer's V(SA) backwards (its send window opens beyond the announced RW); one without N(R) cannot be
+    encoded at all (EncodeError in the link loop, which ends the link)."""
+    f = prog.func(DLC + '.dequeue')
+    cfg = cfg_of(f)
+    ifs = [i for i in walk_no_nested(f.node) if isinstance(i, ast.If) and any(
+        isinstance(c, ast.Compare) and norm(c.left) == 'send_pdu.name' and try_const(c.comparators[0]) == 'I' for c in ast.walk(i.test))]
+    setnr = [n for n in cfg.nodes if isinstance(n.ast, ast.Assign) and norm(n.ast.targets[0]) == 'send_pdu.nr']
+    if len(ifs) != 1 or not setnr:
+        report.fail('C05-R4', key(f.qname, 'I PDU leaves with N(R) := V(RA)'), f.loc(),
+                    'dequeue() no longer sets N(R) of an outgoing I PDU' if not setnr else 'I PDU branch of dequeue() not found')
+        return
+    # start at the true edge of the `send_pdu.name == "I"` comparison itself: whatever else the branch tests (connection state,
+    # pending confirmations), an I PDU that is returned has a valid N(R)
+    starts = set()
+    for e, t in cfg.test_nodes.items():
+        if isinstance(e, ast.Compare) and norm(e.left) == 'send_pdu.name' and try_const(e.comparators[0]) == 'I' and isinstance(e.ops[0], ast.Eq):
+            starts |= set(nxt for nxt, lab in t.succ if lab == 'true')
+    if not starts:
+        raise AnalysisError('C05-R4: dequeue(): entry of the I PDU branch not found in the CFG')
+    okk = all(norm(n.ast.value) == 'self.recv_ack' for n in setnr)
+    for s_ in starts:
+        if s_ in setnr:
+            continue
+        if cfg.exit in cfg.reachable(s_, avoid_nodes=setnr, labels_excluded=('exc',)):
+            okk = False
+    later = [n for a in setnr for n in cfg.reachable(a) if n is not a and isinstance(n.ast, ast.Assign) and
+             any(is_self_attr(t, ('recv_ack',)) for t in n.ast.targets)]
+    report.check(okk and not later, 'C05-R4', key(f.qname, 'I PDU leaves with N(R) := V(RA)'), f.loc(setnr[0].ast),
+                 'an I PDU can be dequeued without N(R) being set to the current V(RA)%s: the peer sees a stale acknowledgement number '
+                 'and its send window opens beyond the announced RW' % (' (V(RA) is advanced after N(R) was set)' if later else ''))
+
+
 def run(report, prog, tier):
     rule_window(report, prog)
     rule_recv_buffer(report, prog)
@@ -326,6 +380,7 @@ def run(report, prog, tier):
     rule_miu_writes(report, prog)
     rule_sequence(report, prog)
     rule_mod16(report, prog)
+    rule_piggyback(report, prog)
     rule_lock(report, prog)
     rule_wait(report, prog)
     rule_fifo(report, prog)
@@ -340,6 +395,17 @@ def selftest():
 
 T = 'nfc.llcp.tco'
 MUTANTS = [
+    ('nr-only-with-new-confirmations', 'nfc.llcp.tco', """                        self.recv_confs = 0
+                    send_pdu.nr = self.recv_ack
+                    self.send_ready.notify()""", """                        self.recv_confs = 0
+                        send_pdu.nr = self.recv_ack
+                    self.send_ready.notify()""", 'C05-R4'),
+    ('nr-only-when-established', 'nfc.llcp.tco', """                if send_pdu.name == "I":
+                    if self.recv_confs and self.recv_cnt != self.recv_ack:""", """                if send_pdu.name == "I" and self.state.ESTABLISHED:
+                    if self.recv_confs and self.recv_cnt != self.recv_ack:""", 'C05-R4'),
+    ('vs-incremented-after-queueing', 'nfc.llcp.tco', """                self.send_cnt = (self.send_cnt + 1) % 16
+                super(DataLinkConnection, self).send(send_pdu, flags)""", """                super(DataLinkConnection, self).send(send_pdu, flags)
+                self.send_cnt = (self.send_cnt + 1) % 16""", 'C05-R1'),
     ('window-test-weakened', T, 'while self.send_window_slots == 0 and self.state.ESTABLISHED:',
      'while self.send_window_slots < 0 and self.state.ESTABLISHED:', 'C05-R1'),
     ('window-wait-removed', T, """                self.log("waiting on busy send window")
